@@ -42,7 +42,7 @@ def init : St :=
 
 @[inline] def rotr (x : UInt32) (n : UInt32) : UInt32 := (x >>> n) ||| (x <<< (32 - n))
 
-@[inline] def byteAt (m : ByteArray) (i : Nat) : UInt32 := (m.data.getD i 0).toUInt32
+@[inline] def byteAt (m : ByteArray) (i : Nat) : UInt32 := if h : i < m.size then (m[i]'h).toUInt32 else 0
 
 /-- the 64-word message schedule of the block starting at byte `off` -/
 def schedule (m : ByteArray) (off : Nat) : Array UInt32 := Id.run do
